@@ -329,6 +329,17 @@ def gen_missing_case(rng, max_res, allow_removal):
     return case
 
 
+def gen_long_chain_case(rng, nres):
+    """a homopolymer of `nres` residues of a type for which NO link is defined: every one of the nres-1 requested
+    edges is unrealised, so each must be named in a warning of its own (many missing links in one molecule)"""
+    case = G.gen_case(rng, max_res=2, removal=False)
+    case["links"] = []
+    resname = case["blocks"][0]["name"]
+    case["graph"] = dict(nodes=[[k, k + 1, resname] for k in range(nres)],
+                         edges=[[k, k + 1, None] for k in range(nres - 1)])
+    return case
+
+
 def gen_fromitp_case(rng):
     """copies of one multi-residue .itp block (nodes labelled from_itp) in a row, optionally followed by ordinary
     residues; the junctions between copies (and to the ordinary residues) are realised by a link or not"""
@@ -387,6 +398,9 @@ def run_missing(ctx, known):
             cases.append(gen_fromitp_case(rng))
         else:
             cases.append(gen_missing_case(rng, ctx.budget(7, 10), allow_removal or rng.random() < 0.15))
+    # long chains without any link: 19, 20, 21, 25 and (thorough) 60 missing links in one molecule
+    for nres in [20, 21, 22, 26] + ([61] if ctx.thorough else []):
+        cases.append(gen_long_chain_case(rng, nres))
     items = [x for x in (one_missing_case(ctx, c) for c in cases) if x is not None]
     reqs = [r for item in items for r in item["reqs"]]
     answers = ctx.driver.ask(reqs) if reqs else []
